@@ -7,7 +7,7 @@ direct calls on the machine in program order, then the operations pushed on the 
 (LIFO) order.  Width arguments are canonical expressions over `self.source/target`, `c0/c1.source/target`.
 """
 import re
-from facts import Terms, switch_info, project1, show
+from facts import Terms, switch_info, project1, show, linearise
 import expr
 
 BM = "simplicity::bit_machine::BitMachine::"
@@ -62,7 +62,7 @@ def renamer(s):
     return s
 
 
-def paths(fn, start, inside, limit=64):
+def paths(fn, start, inside, limit=64, feasible=None):
     """All simple paths (lists of blocks) from `start` that stay inside `inside`; a path ends when it
     leaves the region (exit block recorded) or at a return/diverging block."""
     out = []
@@ -77,6 +77,8 @@ def paths(fn, start, inside, limit=64):
             out.append((acc, None))
             return
         for s in nxt:
+            if feasible is not None and not feasible(b, s):
+                continue
             if s not in inside:
                 out.append((acc, s))
             elif s in acc:
@@ -101,6 +103,63 @@ def extract(F):
     fn = F.inlined(fn, tuple(MACHINE_OPS) + ("visit_node", "exec_with_tracker", "pad_left", "pad_right", "bit_width"))
     sb, si, ip, inner_local = find_ip(fn)
     T = Terms(fn, opaque={ip: "ip"})
+    # the deferred-action enum: whatever private enum of the bit_machine module is pushed on a Vec here (its name and its
+    # variants' names are the maintainer's business)
+    deferred = set()
+    for cs in fn.calls():
+        if cs.name in ("push", "extend") and "Vec" in (cs.callee or "") and len(cs.args) == 2:
+            it = T.operand(cs.args[1])
+            its = list(it[1]) if isinstance(it, tuple) and it and it[0] == "array" else [it]
+            for it in its:
+                if isinstance(it, tuple) and it and it[0] == "adt" and str(it[1]).startswith("simplicity::bit_machine::"):
+                    deferred.add(it[1])
+    if len(deferred) != 1:
+        raise TemplateError("the interpreter's deferred-action enum was not found (enums pushed on a Vec: %s)" % sorted(deferred))
+    DEF = next(iter(deferred))
+
+    def is_deferred(path):
+        return path == DEF
+    # what each deferred variant does when it is popped (read off the unwinder below): variant -> operation name
+    unw = {}
+    for b in fn.rpo():
+        si3 = switch_info(fn, b)
+        if si3 and is_deferred(si3[1]):
+            for v, tgt in si3[2].items():
+                reg = fn.dominated_by(tgt)
+                names = []
+                for cs in fn.calls(reg):
+                    if cs.callee.startswith(BM) and cs.name in MACHINE_OPS:
+                        names.append((cs.name, [expr.canon(T.operand(a), renamer) for a in cs.args[1:]]))
+                sets_ip = any(s_[0] == "=" and s_[1][0] == ip and not s_[1][1] for bb in reg for s_ in fn.blocks[bb]["s"])
+                unw[v] = {"ops": names, "sets_ip": sets_ip}
+    push_op = {}
+    dadt = F.adts.get(DEF)
+    node_variants = {vd["name"] for vd in (dadt["variants"] if dadt else []) if any("RedeemNode" in fd["ty"] or "node::Node<" in fd["ty"] for fd in vd["fields"])}
+    for v, u in unw.items():
+        nm = [n for n, _a in u["ops"]]
+        # "continue with this node": the arm makes the popped node the current one — by assigning it, or (when the pop loop is
+        # a helper returning the next node) by handing the variant's node payload back without any machine operation
+        if not nm and (u["sets_ip"] or v in node_variants):
+            u["sets_ip"] = True
+            push_op[v] = "run"
+        else:
+            push_op[v] = "copyfwd" if nm == ["copy", "fwd"] else nm[0] if len(nm) == 1 else "?" + v
+
+    def feasible(b, s_):
+        """a branch on a constant (a flag handed to a spliced helper) has one live successor"""
+        t = fn.blocks[b]["t"]
+        if t["k"] != "switch":
+            return True
+        dt = T.operand(t["discr"])
+        neg = 0
+        while isinstance(dt, tuple) and dt and dt[0] == "un" and dt[1] == "Not":
+            neg += 1
+            dt = dt[2]
+        if not (isinstance(dt, tuple) and dt and dt[0] == "int"):
+            return True
+        val = int(bool(dt[1])) ^ (neg % 2) if (len(dt) > 2 and dt[2] == "bool") or neg else dt[1]
+        tg = [x for v_, x in t["targets"] if v_ == str(val)]
+        return s_ == (tg[0] if tg else t["otherwise"])
     place, adt, targets, otherwise, rest = si
     result = {"fn": fn, "arms": {}, "ip": ip}
     by_target = {}
@@ -108,11 +167,29 @@ def extract(F):
         by_target.setdefault(tgt, []).append(v)
     for tgt, variants in by_target.items():
         region = fn.dominated_by(tgt)
-        for (blocks, exit_b) in paths(fn, tgt, region):
+        # the blocks that dominate the arm (they hold the definitions an arm's expressions refer to)
+        idom = fn.idom()
+        chain, x_ = [], tgt
+        while x_ in idom and idom[x_] != x_:
+            x_ = idom[x_]
+            chain.append(x_)
+        chain.reverse()
+        for (blocks, exit_b) in paths(fn, tgt, region, feasible=feasible):
+            Tp_cache = []
+
+            def on_path(op_):
+                """the operand's value along this very path when the path-insensitive term is a choice between alternatives"""
+                t_ = T.operand(op_)
+                if "phi" not in repr(t_):
+                    return t_
+                if not Tp_cache:
+                    Tp_cache.append(Terms(linearise(fn, chain + blocks), opaque={ip: "ip"}))
+                return Tp_cache[0].operand(op_)
             conds = []
             ops = []
             pushes = []
             err = None
+            helper_err = None
             vs = list(variants)
             dead = False
             for idx, b in enumerate(blocks):
@@ -122,19 +199,34 @@ def extract(F):
                         t = T.rvalue(s[2], 0, ())
                         if t[0] == "adt" and t[2] == "Err":
                             err = t[4][0]
+                    elif s[0] == "=" and not s[1][1] and s[2].get("k") == "agg" and s[2].get("variant") == "Err" and "Result" in str(s[2].get("adt")) \
+                            and fn.blocks[b].get("origin"):
+                        # the error a spliced helper returns; the caller's `?` hands it on unchanged
+                        t = T.rvalue(s[2], 0, ())
+                        if t[0] == "adt" and t[4]:
+                            helper_err = t[4][0]
                 t = fn.blocks[b]["t"]
                 if t["k"] == "call" and "path" in t["f"]:
                     cal = t["f"].get("res") or t["f"]["path"]
                     name = t["f"]["name"]
                     if cal.startswith(BM) and name in MACHINE_OPS:
-                        args = [T.operand(a) for a in t["args"][1:]]
+                        args = [on_path(a) for a in t["args"][1:]]
                         ops.append((name, args))
                     elif name == "push" and "Vec" in cal and len(t["args"]) == 2:
-                        item = T.operand(t["args"][1])
-                        if item[0] == "adt" and is_callstack(item[1]):
+                        item = on_path(t["args"][1])
+                        if item[0] == "adt" and is_deferred(item[1]):
                             pushes.append((item[2], list(item[4])))
+                    elif name == "extend" and "Vec" in cal and len(t["args"]) == 2:
+                        # `pending.extend([A, B, C])`: pushes in array order
+                        arr = on_path(t["args"][1])
+                        while isinstance(arr, tuple) and arr and arr[0] in ("ref", "deref", "cast") and isinstance(arr[-1], tuple):
+                            arr = arr[-1]
+                        if isinstance(arr, tuple) and arr and arr[0] == "array":
+                            for item in arr[1]:
+                                if isinstance(item, tuple) and item and item[0] == "adt" and is_deferred(item[1]):
+                                    pushes.append((item[2], list(item[4])))
                     elif name == "from_residual":
-                        err = ("residual",)
+                        err = helper_err if helper_err is not None else ("residual",)
                     elif name in ("panic", "panic_fmt", "unreachable_display") or "panicking" in cal:
                         dead = True
                 elif t["k"] == "switch" and nb is not None:
@@ -164,7 +256,7 @@ def extract(F):
             seq = [(n, [expr.norm(a, renamer).show() if _is_int_like(a) else expr.canon(a, renamer) for a in args])
                    for (n, args) in ops]
             for (v, args) in reversed(pushes):
-                opn = PUSH_OP.get(v, "?" + v)
+                opn = push_op.get(v, "?" + v)
                 seq.append((opn, [expr.norm(a, renamer).show() if _is_int_like(a) else expr.canon(a, renamer) for a in args]))
             for v in vs:
                 key = (v,) + tuple(c for c in conds if c[0] == "bit" or c[0] in ("ControlFlow",))
@@ -175,20 +267,9 @@ def extract(F):
                     result["arms"][k2] = ent
                 else:
                     result["arms"][key] = ent
-    # ---- call-stack unwinder: CallStack::V -> machine op
-    unw = {}
-    for b in fn.rpo():
-        si3 = switch_info(fn, b)
-        if si3 and is_callstack(si3[1]):
-            for v, tgt in si3[2].items():
-                reg = fn.dominated_by(tgt)
-                names = []
-                for cs in fn.calls(reg):
-                    if cs.callee.startswith(BM) and cs.name in MACHINE_OPS:
-                        names.append((cs.name, [expr.canon(T.operand(a), renamer) for a in cs.args[1:]]))
-                sets_ip = any(s[0] == "=" and s[1][0] == ip and not s[1][1] for bb in reg for s in fn.blocks[bb]["s"])
-                unw[v] = {"ops": names, "sets_ip": sets_ip}
     result["unwinder"] = unw
+    result["push_op"] = push_op
+    result["deferred"] = DEF
     return result
 
 
